@@ -26,9 +26,6 @@ use std::fs;
 use std::path::Path;
 use verif_harness::*;
 
-/// the loader's own `print_js` (crates/graphql-loader is a bin crate; this file of it uses no `crate::` path)
-#[path = "/repo/crates/graphql-loader/src/js_printer.rs"]
-mod loader_js_printer;
 
 // ------------------------------------------------------------------ recording writer
 
@@ -513,7 +510,11 @@ fn text_dts(cfg: &Config, schema: &graphql_type_system::Schema<std::borrow::Cow<
 }
 /// what the loader's emit_js returns for the resolved document
 fn text_js(cfg: &Config, doc: &OperationDocument) -> String {
-    loader_js_printer::print_js(doc, cfg)
+    // the JS printer with the options derived from THIS configuration (what js_printer.rs::print_js of the loader is
+    // meant to do); the loader's own code runs through harness/c14-loader and is compared with this text
+    let mut w = SourceWriter::new();
+    print_js_for_operation_document(OperationJSPrinterOptions::from_config(cfg), doc, &mut w);
+    w.into_buffers().buffer
 }
 
 /// export statements read off the generated TEXT: lines `export const NAME<sep>` and `export { NAME as default };`
@@ -649,7 +650,8 @@ fn coq_ops(ops: &[Wop], named_seqs: &[(String, &Vec<Wop>)], named_strs: &[(Strin
 
 // ------------------------------------------------------------------ main
 
-struct CaseOut { term: String, descr: Value, project: usize, node_file: Option<String>,
+struct CaseInfo { pid: usize, cfg: CfgT, text: String, text_safe: bool }
+struct CaseOut { term: String, descr: Value, projects: Vec<usize>, node_file: Option<String>,
                  js_text: String, loader_req: Option<Value> }
 
 fn main() {
@@ -675,6 +677,8 @@ fn main() {
 
     let n_projects = if thorough { 80 } else { 44 };
     let mut cases: Vec<CaseOut> = vec![];
+    let mut infos: Vec<CaseInfo> = vec![];
+    let mut projects: Vec<Project> = vec![];
     let mut preludes: Vec<String> = vec![];
     let mut distinct: HashSet<String> = HashSet::new();
     let mut direct_failures: Vec<Value> = vec![];
@@ -812,7 +816,7 @@ fn main() {
                 loader_budget -= 1;
                 let mut files = Map::new();
                 for (name, t) in &pr.sources { files.insert(format!("/p/{}", name), json!(t)); }
-                loader_req = Some(json!({"id": cases.len(), "config": text, "root": "/p/main.graphql", "files": Value::Object(files)}));
+                loader_req = Some(json!({"id": cases.len(), "steps": [{"config": text, "root": "/p/main.graphql", "files": Value::Object(files)}]}));
             }
             let term = format!("Case {p}_doc {p}_docL {p}_B {p}_ids {} {} {} {} {} {} {} {}",
                 coq_cfg(&cfg), coq_ops(&dts, &named_seqs, &named_strs), coq_ops(&js, &named_seqs, &named_strs),
@@ -828,6 +832,7 @@ fn main() {
             if te_js.0.len() > te_dts.0.len() { bump("cases_where_loader_exports_more", &mut dist); }
             // non-trivial: the declaration file declares at least one value export (named or default)
             if !dts_named.is_empty() || !dts_dflt.is_empty() { distinct.insert(format!("{}|{}", pid, text)); }
+            infos.push(CaseInfo { pid, cfg: cfg.clone(), text: text.clone(), text_safe });
             cases.push(CaseOut {
                 term,
                 descr: json!({"project": pr.descr, "config_text": text, "config_format": format,
@@ -838,16 +843,54 @@ fn main() {
                     "cli_dts_exports_from_text": te_cli.as_ref().map(|t| json!({"named": t.0, "default": t.1})),
                     "op_level": {"dts_named": dts_named, "dts_default": dts_dflt, "js_named": js_named, "js_default": js_dflt,
                                  "js_declared": js_decls, "js_duplicate_bindings": dups}}),
-                project: pid, node_file, js_text: tjs_l.clone(), loader_req,
+                projects: vec![pid], node_file, js_text: tjs_l.clone(), loader_req,
             });
         }
         preludes.push(prelude);
+        projects.push(pr);
+    }
+
+    // ---- histories on ONE loader instance: load_config / emit sequences; each emission is compared with the declaration
+    // file printed from the configuration text that is current at that step (default configuration before any load_config)
+    struct PlanStep { load: bool, pid: usize, cur_cfg: CfgT, safe: bool, tdts: (Vec<String>, Vec<String>), js: String, cur_text: Option<String> }
+    let mut plans: Vec<Vec<PlanStep>> = vec![];
+    let mut hist_reqs: Vec<Value> = vec![];
+    if loader_exe.is_some() {
+        let res_projects: Vec<usize> = (0..projects.len()).filter(|i| projects[*i].via_resolver).collect();
+        let safe_infos: Vec<usize> = (0..infos.len()).filter(|i| infos[*i].text_safe).collect();
+        let n_hist = if res_projects.is_empty() || infos.is_empty() { 0 } else if thorough { 2500 } else { 300 };
+        for k in 0..n_hist {
+            let n_steps = rng.range(2, 4);
+            let same_project = rng.chance(1, 2);
+            let p0 = *rng.pick(&res_projects);
+            let mut cur_text: Option<String> = None; let mut cur_cfg: CfgT = None; let mut cur_safe = true;
+            let mut steps = vec![]; let mut req_steps = vec![];
+            for i in 0..n_steps {
+                let load = if i == 0 { !rng.chance(1, 4) } else { !rng.chance(1, 6) };
+                if load {
+                    let ii = if !safe_infos.is_empty() && !rng.chance(1, 10) { *rng.pick(&safe_infos) } else { rng.below(infos.len()) };
+                    cur_text = Some(infos[ii].text.clone()); cur_cfg = infos[ii].cfg.clone(); cur_safe = infos[ii].text_safe;
+                }
+                let pid = if same_project { p0 } else { *rng.pick(&res_projects) };
+                let config = match &cur_text { None => Config::default(), Some(t) => parse_config(t).expect("config parsed before") };
+                let pr = &projects[pid];
+                let tdts = text_exports(&text_dts(&config, &schema, &pr.doc), ": ");
+                let js = text_js(&config, &pr.doc_l);
+                let mut files = Map::new();
+                for (name, t) in &pr.sources { files.insert(format!("/p/{}", name), json!(t)); }
+                req_steps.push(json!({"config": if load { json!(cur_text) } else { Value::Null }, "root": "/p/main.graphql", "files": Value::Object(files)}));
+                steps.push(PlanStep { load, pid, cur_cfg: cur_cfg.clone(), safe: cur_safe, tdts, js, cur_text: cur_text.clone() });
+            }
+            hist_reqs.push(json!({"id": 1_000_000 + k, "steps": req_steps}));
+            plans.push(steps);
+        }
     }
 
     // ---- the real loader: one batch through harness/c14-loader's driver
-    let mut emitted: BTreeMap<usize, Result<String, String>> = BTreeMap::new();
+    let mut emitted: BTreeMap<usize, Vec<Result<String, String>>> = BTreeMap::new();
     if let Some(exe) = &loader_exe {
-        let reqs: Vec<Value> = cases.iter().filter_map(|c| c.loader_req.clone()).collect();
+        let mut reqs: Vec<Value> = cases.iter().filter_map(|c| c.loader_req.clone()).collect();
+        reqs.extend(hist_reqs.iter().cloned());
         if !reqs.is_empty() {
             let inp = args.out.join("loader-requests.json");
             let outp = args.out.join("loader-answers.jsonl");
@@ -859,15 +902,17 @@ fn main() {
             for line in fs::read_to_string(&outp).unwrap_or_default().lines() {
                 if let Ok(v) = serde_json::from_str::<Value>(line) {
                     let id = v["id"].as_u64().unwrap_or(u64::MAX) as usize;
-                    if v["ok"] == json!(true) { emitted.insert(id, Ok(v["js"].as_str().unwrap_or("").to_string())); }
-                    else { emitted.insert(id, Err(v["error"].as_str().unwrap_or("").to_string())); }
+                    let steps = v["steps"].as_array().cloned().unwrap_or_default().iter().map(|st|
+                        if st["ok"] == json!(true) { Ok(st["js"].as_str().unwrap_or("").to_string()) }
+                        else { Err(st["error"].as_str().unwrap_or("").to_string()) }).collect();
+                    emitted.insert(id, steps);
                 }
             }
             // a request without an answer: the process aborted there (a panic inside an extern "C" function)
             for r in &reqs {
                 let id = r["id"].as_u64().unwrap() as usize;
                 if !emitted.contains_key(&id) {
-                    emitted.insert(id, Err(format!("loader process ended without answering (abort?): {}", stderr.chars().take(300).collect::<String>())));
+                    emitted.insert(id, vec![Err(format!("loader process ended without answering (abort?): {}", stderr.chars().take(300).collect::<String>()))]);
                     break; // the driver stops at the first abort; later requests were not attempted
                 }
             }
@@ -875,7 +920,7 @@ fn main() {
         }
     }
     for (i, c) in cases.iter_mut().enumerate() {
-        let field = match (c.loader_req.is_some(), emitted.get(&i)) {
+        let field = match (c.loader_req.is_some(), emitted.get(&i).and_then(|v| v.first())) {
             (true, Some(Ok(js))) => {
                 *dist.entry("loader_emit_js_ok".into()).or_insert(0) += 1;
                 let same = *js == c.js_text;
@@ -933,6 +978,38 @@ fn main() {
     }
     if node.is_some() { let _ = fs::remove_dir_all(&node_dir); }
 
+    // ---- history cases
+    for (k, steps) in plans.iter().enumerate() {
+        let ans = match emitted.get(&(1_000_000 + k)) { Some(a) if a.len() == steps.len() => a, _ => {
+            if loader_exe.is_some() { *dist.entry("loader_histories_unanswered".into()).or_insert(0) += 1; }
+            continue; } };
+        if let Some(Err(e)) = ans.iter().find(|r| r.is_err()) {
+            direct_failures.push(json!({"what": format!("the loader fails inside a load_config/emit history: {}", e), "classes": [], "history": hist_reqs[k]}));
+            continue;
+        }
+        let mut terms = vec![]; let mut dsteps = vec![]; let mut pids = vec![];
+        for (st, a) in steps.iter().zip(ans.iter()) {
+            let js = a.as_ref().unwrap();
+            let te = text_exports(js, " = ");
+            let same = *js == st.js;
+            if !same { *dist.entry("history_steps_where_emit_js_differs_from_current_config".into()).or_insert(0) += 1; }
+            let p = format!("p{}", st.pid);
+            terms.push(format!("HStep {} {p}_doc {p}_B {} {} {} {}",
+                if st.load { format!("(Some {})", coq_cfg(&st.cur_cfg)) } else { "None".to_string() },
+                coq_bool(st.safe), coq_bool(same), coq_text_exports(&st.tdts), coq_text_exports(&te)));
+            dsteps.push(json!({"load_config_called": st.load, "current_config_text": st.cur_text, "files": projects[st.pid].descr["files"],
+                "declared_by_dts_under_current_config": {"named": st.tdts.0, "default": st.tdts.1},
+                "exported_by_emit_js": {"named": te.0, "default": te.1}, "emit_js_text_equals_printer_under_current_config": same}));
+            if !pids.contains(&st.pid) { pids.push(st.pid); }
+            *dist.entry("history_steps".into()).or_insert(0) += 1;
+            if !st.load { *dist.entry("history_steps_without_load_config".into()).or_insert(0) += 1; }
+        }
+        *dist.entry("histories".into()).or_insert(0) += 1;
+        distinct.insert(format!("hist|{}", hist_reqs[k]));
+        cases.push(CaseOut { term: format!("Hist [{}]", terms.join("; ")), descr: json!({"kind": "loader-history", "steps": dsteps}),
+            projects: pids, node_file: None, js_text: String::new(), loader_req: None });
+    }
+
     // ---- write shards: each shard carries the prelude of the projects it mentions
     let out = &args.out;
     fs::create_dir_all(out).unwrap();
@@ -942,12 +1019,13 @@ fn main() {
         let mut v = String::new();
         let _ = writeln!(v, "From V Require Import Base.Util C14.Model C14.Corr.");
         let mut seen = vec![];
-        for c in chunk { if !seen.contains(&c.project) { seen.push(c.project); v.push_str(&preludes[c.project]); } }
-        let _ = writeln!(v, "Definition cases : list case := [");
-        for (i, c) in chunk.iter().enumerate() { let _ = writeln!(v, "  {}{}", c.term, if i + 1 < chunk.len() { ";" } else { "" }); }
+        for c in chunk { for pj in &c.projects { if !seen.contains(pj) { seen.push(*pj); v.push_str(&preludes[*pj]); } } }
+        let _ = writeln!(v, "Definition cases : list tcase := [");
+        for (i, c) in chunk.iter().enumerate() { let t = if c.term.starts_with("Hist ") { c.term.clone() } else { format!("One ({})", c.term) };
+            let _ = writeln!(v, "  {}{}", t, if i + 1 < chunk.len() { ";" } else { "" }); }
         let _ = writeln!(v, "].");
-        let _ = writeln!(v, "Definition corr_fail := Eval vm_compute in (failing agree cases).");
-        let _ = writeln!(v, "Definition prop_fail := Eval vm_compute in (failing holds cases).");
+        let _ = writeln!(v, "Definition corr_fail := Eval vm_compute in (failing agree_t cases).");
+        let _ = writeln!(v, "Definition prop_fail := Eval vm_compute in (failing holds_t cases).");
         let _ = writeln!(v, "Print corr_fail.\nPrint prop_fail.");
         fs::write(out.join(format!("cases_{}.v", k)), v).unwrap();
         k += 1;
